@@ -327,6 +327,8 @@ pub fn write_float_nonscientific<const FORMAT: u128>(
         copy_to_dst(dst, src);
         let zeros = rtrim_char_count(&bytes[cursor..end], b'0');
         cursor += fraction_count - zeros;
+        // The trimmed zeros are no longer written, as in the scientific writer.
+        digit_count -= zeros;
     } else if options.trim_floats() {
         // Remove the decimal point, went too far.
         cursor -= 1;
